@@ -935,7 +935,7 @@ def rule_R5(ed, src, parts, ordinal):
     return (k, j)
 
 
-def rule_R11(ed, src, parts, ordinal, name, ghost=None):
+def rule_R11(ed, src, parts, ordinal, name, ghost=None, plain=False):
     """the K-th `for` loop desugared as the Rust reference defines it (so that the loop can carry
     an invariant over a caller-supplied iterator type):
         for PAT in EXPR { BODY }
@@ -994,7 +994,9 @@ def rule_R11(ed, src, parts, ordinal, name, ghost=None):
     head = ""
     if counter:
         head += "let mut %s: usize = 0;\n" % counter
-    head += "let mut %s = IntoIterator::into_iter(%s);\n" % (name, expr)
+    # (`plain`: the iterable already IS the iterator -- `IntoIterator for I: Iterator` is the identity --
+    #  and the unit verifies its `next` as an inherent method, R10, so no trait impl exists to go through)
+    head += ("let mut %s = %s;\n" % (name, expr)) if plain else ("let mut %s = IntoIterator::into_iter(%s);\n" % (name, expr))
     if ghost:
         # (annotation only) a ghost name for what the iterator will yield, for the loop invariant
         head += "let ghost %s = %s.remaining();\n" % (ghost, name)
@@ -1517,7 +1519,7 @@ class Unit:
                 elif r == "R5":
                     rule_R5(ed, src, parts, int(args[1]) if len(args) > 1 else 1)
                 elif r == "R11":
-                    rule_R11(ed, src, parts, int(args[1]), args[2] if len(args) > 2 else "verif_it%s" % args[1], args[3] if len(args) > 3 else None)
+                    rule_R11(ed, src, parts, int(args[1]), args[2] if len(args) > 2 else "verif_it%s" % args[1], args[3] if len(args) > 3 and args[3] != "-" else None, plain=(len(args) > 4 and args[4] == "plain"))
                 elif r == "R9":
                     if len(args) > 1 and args[1] == "all":
                         # every `.map(..)` of the body (they are all Meta::map in the function the
